@@ -53,6 +53,7 @@ pub fn gen_history(r: &mut Rng, nsteps: usize, mode: u32) -> Vec<Step> {
     // CREATE UNIQUE INDEX resolves object ids wrongly once ids were burnt by a rolled-back CREATE, a DROP TABLE or a DROP COLUMN
     // (open findings, witnesses in corpus/C15): it is only generated before any of these happened
     let mut ids_disturbed = false;
+    let mut dropped_once = false;
     let mut had_rows: std::collections::BTreeSet<String> = Default::default();
     for _ in 0..nsteps {
         let existing: Vec<String> = m.tables.keys().cloned().collect();
@@ -66,7 +67,8 @@ pub fn gen_history(r: &mut Rng, nsteps: usize, mode: u32) -> Vec<Step> {
             let t = new_table(&mut g, name);
             let c = Stmt::Create(t.clone());
             let how = g.r.below(4);
-            let how = if how == 1 && mode != 0 { 2 } else { how };
+            // at most one rolled-back CREATE per history (open finding: repeated_rolled_back_create)
+            let how = if how == 1 && (mode != 0 || ids_disturbed) { 2 } else { how };
             match how {
                 0 => {
                     // inside a committed transaction, with a row
@@ -103,14 +105,19 @@ pub fn gen_history(r: &mut Rng, nsteps: usize, mode: u32) -> Vec<Step> {
         }
         let tn = g.r.pick(&existing).clone();
         let t = m.tables[&tn].clone();
-        if k < 6 && mode == 1 {
+        if k < 6 && mode == 1 && !dropped_once && std::env::var("AXV_C15_DROP").is_ok() {
+            // DROP TABLE is not sampled on the unchanged tree: pages it frees come back from the free list in a wrong state
+            // (open findings create_after_two_drops / create_after_drop_and_reopen and C11); it is covered by those witnesses.
+            // at most one DROP TABLE per history (open finding create_after_two_drops)
+            dropped_once = true;
             let d = Stmt::Drop(tn.clone());
             steps.push(Step::Auto(d.clone()));
             m.apply(&d);
             ids_disturbed = true;
             had_rows.remove(&tn);
             steps.push(Step::Raw(format!("SELECT * FROM {}", tn), false));
-        } else if k < 8 && mode == 1 && t.cols.len() > 2 && !had_rows.contains(&tn) && t.uniques.is_empty() {
+        } else if k < 8 && mode == 1 && t.cols.len() > 2 && !had_rows.contains(&tn) && t.uniques.is_empty() && std::env::var("AXV_C15_DROP").is_ok() {
+            // not sampled either: repeated ALTER TABLE rewrites of the catalog row damage the meta table (witness drop_column_then_inserts)
             // open finding: DROP COLUMN on a populated table leaves the stored rows in the old shape (witness in corpus/C15)
             let cands: Vec<usize> = (1..t.cols.len()).filter(|i| !t.uniques.iter().any(|u| u.contains(i))).collect();
             if cands.is_empty() {
@@ -169,7 +176,8 @@ pub fn gen_history(r: &mut Rng, nsteps: usize, mode: u32) -> Vec<Step> {
                 m.apply(&s);
                 steps.push(Step::Auto(s));
             }
-        } else if k < 18 {
+        } else if k < 18 && mode != 1 {
+            // (mode 1: open finding create_after_drop_and_reopen — no reopen between DROP and CREATE)
             steps.push(Step::Reopen(0));
         } else {
             // a never-created name must not resolve; an existing one must
